@@ -1,8 +1,139 @@
-(* C10 -- property theorems only: statement + exact + Print Assumptions. *)
+(* C10 -- property theorems only: statement + exact + Print Assumptions.
+   Model: model/Color.v (kernels of jccolext.c / jdcolext.c / jdmrgext.c per layout, row pointers of
+   turbojpeg-mp.c, gray extraction); generated facts: gen/GenLayouts.v. *)
 From Coq Require Import List ZArith.
 From LJT Require Import gen.GenLayouts model.Color proofs.ColorProofs.
+Import ListNotations.
 Local Open Scope Z_scope.
 
-Theorem C10_layout_tables_checked : layouts_ok = true /\ fix_ok = true.
-Proof. exact layouts_ok_true. Qed.
-Print Assumptions C10_layout_tables_checked.
+(* (1) the offset / pixel-size tables of the current source: every colour space of the RGB family has a
+   well-formed layout; every C and SIMD instantiation reached through the switch statements of
+   jccolor.c / jdcolor.c / jdmerge.c / simd/x86_64/jsimd.c uses exactly the offsets of jmorecfg.h's tables;
+   the RGB_ALPHA of the decompression instantiations is the remaining position of 4-sample pixels; the
+   TurboJPEG tables agree with the libjpeg ones through pf2cs[], cs2pf[pf2cs[pf]] = pf; the FIX()
+   constants of the C and .asm files agree. *)
+Theorem C10_layouts_wellformed :
+  (forall cs, In cs rgb_family_cs ->
+     let L := cs_layout cs in
+     WF L /\
+     (forall tab, In tab (c_dispatch_tables ++ d_dispatch_tables ++ simd_dispatch_tables) ->
+        rgbp_of (lookup5 tab cs) = Some (layout_rgbp L)) /\
+     (forall tab, In tab d_dispatch_tables -> alpha_of (lookup5 tab cs) = Some (aoff L)) /\
+     (psz L = 4 -> 0 <= aoff L)) /\
+  (forall pf, In pf tj_rgb_family_pf ->
+     let T := pf_layout pf in let cs := znth pf2cs_tab pf in let L := cs_layout cs in
+     In cs rgb_family_cs /\ WF T /\ layout_rgbp T = layout_rgbp L /\
+     (aoff T = -1 \/ aoff T = aoff L) /\ znth cs2pf_tab cs = pf) /\
+  length rgb_family_cs = 11%nat /\ length tj_rgb_family_pf = 10%nat /\ fix_ok = true.
+Proof. exact layouts_wellformed. Qed.
+Print Assumptions C10_layouts_wellformed.
+
+(* (2) compression: two presentations of the same picture -- any two well-formed layouts, any filler in the
+   unused position, any padding (pitch >= w*psz is part of `presentation`), either row order, any width and
+   height -- give the same Y/Cb/Cr, gray and RGB component planes, namely the conversion of the picture. *)
+Theorem C10_compress_layout_invariant : forall p L1 L2 w pitch1 pitch2 rowsp1 rowsp2 bu1 bu2,
+  WF L1 -> WF L2 -> presentation L1 w pitch1 rowsp1 -> presentation L2 w pitch2 rowsp2 ->
+  picture rowsp1 = picture rowsp2 ->
+  let b1 := mkbuf L1 rowsp1 bu1 in let b2 := mkbuf L2 rowsp2 bu2 in
+  let p1 := rows pitch1 (length rowsp1) bu1 in let p2 := rows pitch2 (length rowsp2) bu2 in
+  rgb_ycc_convert p L1 b1 p1 w = rgb_ycc_convert p L2 b2 p2 w /\
+  rgb_gray_convert p L1 b1 p1 w = rgb_gray_convert p L2 b2 p2 w /\
+  rgb_rgb_convert L1 b1 p1 w = rgb_rgb_convert L2 b2 p2 w /\
+  rgb_ycc_convert p L1 b1 p1 w = map (map (ycc_of_rgb p)) (picture rowsp1) /\
+  rgb_rgb_convert L1 b1 p1 w = picture rowsp1.
+Proof. exact compress_layout_invariant. Qed.
+Print Assumptions C10_compress_layout_invariant.
+
+(* the same for arbitrary memories and arbitrary row pointers (libjpeg API): the planes are a function of
+   the (r,g,b) values found at the layout's offsets, of nothing else *)
+Theorem C10_compress_any_memory : forall p L1 L2 buf1 buf2 ptrs1 ptrs2 w,
+  unpack L1 buf1 ptrs1 w = unpack L2 buf2 ptrs2 w ->
+  rgb_ycc_convert p L1 buf1 ptrs1 w = rgb_ycc_convert p L2 buf2 ptrs2 w /\
+  rgb_gray_convert p L1 buf1 ptrs1 w = rgb_gray_convert p L2 buf2 ptrs2 w /\
+  rgb_rgb_convert L1 buf1 ptrs1 w = rgb_rgb_convert L2 buf2 ptrs2 w.
+Proof. exact compress_any_memory. Qed.
+Print Assumptions C10_compress_any_memory.
+
+(* (3) decompression into any well-formed layout, any pitch >= w*psz, either row order, into any buffer that
+   holds the rows: reading the output back at the layout's offsets gives the layout-independent colour
+   conversion of the planes; the alpha position holds the maximum sample value; the buffer keeps its
+   length and no sample outside the w*psz extent of the rows is modified. *)
+Theorem C10_decompress_layout_invariant : forall p L w h pitch bu img buf,
+  WF L -> length img = h -> Forall (fun row => length row = w) img ->
+  Z.of_nat w * psz L <= pitch ->
+  (Z.of_nat h - 1) * pitch + Z.of_nat w * psz L <= Z.of_nat (length buf) ->
+  let ptrs := rows pitch h bu in
+  let out := ycc_rgb_convert p L img buf ptrs in
+  unpack L out ptrs w = map (map (rgb_of_ycc p)) img /\
+  (0 <= aoff L -> unpack_alpha L out ptrs w = map (fun _ => repeat (sp_max p) w) img) /\
+  length out = length buf /\
+  (forall j, 0 <= j ->
+     (forall i, 0 <= i < Z.of_nat h -> j < i * pitch \/ i * pitch + Z.of_nat w * psz L <= j) ->
+     rd out j = rd buf j).
+Proof. exact decompress_layout_invariant. Qed.
+Print Assumptions C10_decompress_layout_invariant.
+
+(* the shared output loop (gray->rgb, rgb->extended rgb use it with other pixel values), for arbitrary
+   pairwise disjoint in-bounds row pointers *)
+Theorem C10_output_rows : forall a L w, WF L -> forall img buf ptrs,
+  length img = length ptrs -> Forall (fun row => length row = w) img ->
+  in_bounds (Z.of_nat w * psz L) (length buf) ptrs -> separated (Z.of_nat w * psz L) ptrs ->
+  let out := put_rows a L img buf ptrs in
+  length out = length buf /\
+  (forall j, 0 <= j -> outside_rows (Z.of_nat w * psz L) ptrs j -> rd out j = rd buf j) /\
+  unpack L out ptrs w = img /\
+  (0 <= aoff L -> unpack_alpha L out ptrs w = map (fun _ => repeat a w) img).
+Proof. exact put_rows_spec. Qed.
+Print Assumptions C10_output_rows.
+
+(* merged upsampling (jdmrgext.c, h2v1 and through dup_rows h2v2) is the ordinary conversion of the row
+   with every chroma sample used twice, for every layout: (3) applies to it *)
+Theorem C10_merged_is_plain : forall p L ys cbs crs buf ptrs,
+  h2v1_rows p L ys cbs crs buf ptrs = ycc_rgb_convert p L (merged_image ys cbs crs) buf ptrs.
+Proof. exact merged_is_plain. Qed.
+Print Assumptions C10_merged_is_plain.
+
+(* (4) gray: RGB -> gray is the Y plane of RGB -> YCbCr for every layout; YCbCr -> gray output is component
+   0, whatever the pitch >= w and the row order, and touches nothing else *)
+Theorem C10_gray_is_luma :
+  (forall p L buf ptrs w, rgb_gray_convert p L buf ptrs w = plane 0 (rgb_ycc_convert p L buf ptrs w)) /\
+  (forall w h pitch bu (img : list (list px3)) buf,
+     length img = h -> Forall (fun row => length row = w) img ->
+     Z.of_nat w <= pitch -> (Z.of_nat h - 1) * pitch + Z.of_nat w <= Z.of_nat (length buf) ->
+     let ptrs := rows pitch h bu in
+     let out := grayscale_convert_d img buf ptrs in
+     unpack_gray out ptrs w = plane 0 img /\ length out = length buf /\
+     (forall j, 0 <= j -> (forall i, 0 <= i < Z.of_nat h -> j < i * pitch \/ i * pitch + Z.of_nat w <= j) ->
+        rd out j = rd buf j)).
+Proof. exact gray_is_luma. Qed.
+Print Assumptions C10_gray_is_luma.
+
+(* the (_JSAMPLE) cast of rgb_ycc_convert never wraps for in-range samples (8 and 12 bit), with the
+   FIX() constants of the current jccolor.c *)
+Theorem C10_forward_conversion_no_wrap : forall p, p = prec8 \/ p = prec12 -> forall t,
+  0 <= c0 t <= sp_max p -> 0 <= c1 t <= sp_max p -> 0 <= c2 t <= sp_max p ->
+  ycc_of_rgb p t = (y_raw p (c0 t) (c1 t) (c2 t), cb_raw p (c0 t) (c1 t) (c2 t), cr_raw p (c0 t) (c1 t) (c2 t)) /\
+  0 <= c0 (ycc_of_rgb p t) <= sp_max p /\ 0 <= c1 (ycc_of_rgb p t) <= sp_max p /\ 0 <= c2 (ycc_of_rgb p t) <= sp_max p.
+Proof. exact forward_conversion_no_wrap. Qed.
+Print Assumptions C10_forward_conversion_no_wrap.
+
+(* non-vacuity: the hypotheses of (2) and (3) hold for concrete non-trivial values *)
+Example C10_compress_example :
+  let L1 := cs_layout JCS_EXT_RGB in let L2 := cs_layout JCS_EXT_XBGR in
+  WF L1 /\ WF L2 /\ presentation L1 2 6 ex_rows1 /\ presentation L2 2 13 ex_rows2 /\
+  picture ex_rows1 = picture ex_rows2 /\
+  mkbuf L1 ex_rows1 false = [255; 0; 0; 0; 255; 0; 0; 0; 255; 200; 100; 50] /\
+  mkbuf L2 ex_rows2 true = [93; 255; 0; 0; 94; 50; 100; 200; 6; 7; 8; 9; 10; 91; 0; 0; 255; 92; 0; 255; 0; 1; 2; 3; 4; 5] /\
+  rgb_ycc_convert prec8 L2 (mkbuf L2 ex_rows2 true) (rows 13 2 true) 2 =
+    [[(76, 85, 255); (150, 44, 21)]; [(29, 255, 107); (124, 86, 182)]].
+Proof. exact compress_example. Qed.
+
+Example C10_decompress_example :
+  let L := cs_layout JCS_EXT_BGRA in
+  let img := [[(76, 85, 255); (150, 44, 21)]; [(29, 255, 107); (124, 86, 182)]] in
+  let buf := repeat 7 18 in
+  WF L /\ 0 <= aoff L /\ Forall (fun row => length row = 2%nat) img /\
+  Z.of_nat 2 * psz L <= 9 /\ (Z.of_nat 2 - 1) * 9 + Z.of_nat 2 * psz L <= Z.of_nat (length buf) /\
+  ycc_rgb_convert prec8 L img buf (rows 9 2 true) =
+    [254; 0; 0; 255; 50; 100; 200; 255; 7; 0; 0; 254; 255; 1; 255; 0; 255; 7].
+Proof. exact decompress_example. Qed.
